@@ -105,6 +105,8 @@ func cmdCheck(args []string) int {
 	budget := fs.Int("budget", 0, "seconds (0: per tier default)")
 	fixed := fs.String("inputs", "", "replay file: run the harness in concrete mode on these inputs")
 	cpuprof := fs.String("cpuprofile", "", "write a CPU profile of the exploration")
+	noEvidence := fs.Bool("no-evidence", false, "do not write the evidence file")
+	decFile := fs.String("decisions", "", "replay file: re-execute exactly the recorded decision vector (branches and schedule) of its harness case")
 	if len(args) < 1 {
 		fmt.Fprintln(os.Stderr, "usage: symgo check <property> [flags]")
 		return 2
@@ -181,6 +183,24 @@ func cmdCheck(args []string) int {
 			cfg.Fixed[k] = n
 		}
 	}
+	var decPrefix []exec.Decision
+	decCase := ""
+	if *decFile != "" {
+		b, err := os.ReadFile(*decFile)
+		if err != nil {
+			fmt.Println("INCONCLUSIVE", err)
+			return 2
+		}
+		var rf replayFile
+		json.Unmarshal(b, &rf)
+		ds, ok := exec.ParseDecisions(rf.Decisions)
+		if !ok || len(ds) == 0 {
+			fmt.Println("INCONCLUSIVE replay file carries no replayable decision vector")
+			return 2
+		}
+		decPrefix, decCase = ds, rf.Case
+		*only = rf.Harness
+	}
 	bud := *budget
 	if bud == 0 {
 		bud = 600
@@ -247,6 +267,12 @@ func cmdCheck(args []string) int {
 			}
 			if h.Opts["clock"] != "" {
 				j.Meta["clock"] = h.Opts["clock"]
+			}
+			if decPrefix != nil {
+				if c.Label != decCase {
+					continue
+				}
+				j.Prefix, j.Single = decPrefix, true
 			}
 			if h.Opts["fpexact"] == "1" {
 				j.Meta["fpexact"] = "1"
@@ -334,6 +360,16 @@ func cmdCheck(args []string) int {
 		}
 		perHarness[r.Job.Name]["paths"] += r.Paths
 		perHarness[r.Job.Name]["cases"]++
+		if r.SchedMax[0] > 0 {
+			ph := perHarness[r.Job.Name]
+			ph["schedules_explored"] += r.Paths
+			ph["goroutine_switches_total"] += int(r.Switches)
+			for k, name := range []string{"goroutines_max", "goroutine_switches_max_on_a_path", "schedule_departures_max_on_a_path"} {
+				if r.SchedMax[k] > ph[name] {
+					ph[name] = r.SchedMax[k]
+				}
+			}
+		}
 		if len(samples) < 12 || verdict != "holds on all paths" {
 			if len(samples) < 40 {
 				samples = append(samples, sample{r.Job.Name, r.Job.Case, r.Paths, r.MaxDecisions, sites, verdict, r.Wall.Milliseconds()})
@@ -569,7 +605,10 @@ func cmdCheck(args []string) int {
 	}
 	os.MkdirAll(filepath.Join(outRoot, "evidence"), 0o755)
 	b, _ := json.MarshalIndent(ev, "", " ")
-	os.WriteFile(filepath.Join(outRoot, "evidence", prop+".json"), b, 0o644)
+	if !*noEvidence && *only == "" && *caseFilter == "" {
+		// partial runs (one harness, one case, a replay) never overwrite the property's evidence
+		os.WriteFile(filepath.Join(outRoot, "evidence", prop+".json"), b, 0o644)
+	}
 	fmt.Printf("%s tier=%s harness-cases=%d paths=%d queries=%d (sat %d unsat %d unknown %d) solver=%.1fs wall=%.1fs exit=%d\n",
 		prop, *tier, len(jobs), totalPaths, stats.Sat+stats.Unsat+stats.Unknown, stats.Sat, stats.Unsat, stats.Unknown, stats.SolverTime.Seconds(), wall, exit)
 	if *debug {
@@ -797,6 +836,15 @@ func cmdReplay(args []string) int {
 		return 2
 	}
 	abs, _ := filepath.Abs(args[0])
+	if h.ReplayMode == "model-only" || strings.HasPrefix(rf.Native, "model-only") {
+		// the violated clause (or the schedule) is not observable natively: re-execute
+		// exactly the recorded decision vector in the engine against the current tree
+		tier := os.Getenv("VERIF_TIER")
+		if tier == "" {
+			tier = "quick"
+		}
+		return cmdCheck([]string{rf.Property, "-tier", tier, "-harness", rf.Harness, "-decisions", abs, "-no-replay", "-no-evidence"})
+	}
 	out, ok := nativeReplay(set, h, abs)
 	fmt.Println(out)
 	if ok {
